@@ -406,7 +406,7 @@ class Circuit:
         ios = set(impl.io_nodes)
         for n in impl.nodes:  # add all nodes to main circuit
             if n not in ios:
-                if n != designated_cell:
+                if designated_cell is None or n != designated_cell:
                     node_map[n] = Node(self, f'{node.name}~{n.name}', n.kind)
             elif len(n.outs) > 0 and len(n.ins) > 0:  # output is also read by impl. circuit, need to add a fork.
                 node_map[n] = Node(self, f'{node.name}~{n.name}')
@@ -417,6 +417,10 @@ class Circuit:
                 Line(self, (node_map[l.driver], l.driver_pin), (node_map[l.reader], l.reader_pin))
         for inn, ll in zip(impl_in_nodes, node_in_lines):  # connect inputs
             if ll is None: continue
+            if len(inn.outs) == 0:  # input is not used by impl. circuit, drop the connection.
+                ll.reader = None  # the pin lists of the substituted node are already in use by the implementation.
+                ll.remove()
+                continue
             if len(inn.outs) == 1:
                 l = inn.outs[0]
                 ll.reader = node_map[l.reader]
